@@ -4,7 +4,7 @@
    Time is Z in eighths of a unit (the harness feeds dyadic floats only, so
    binary64 arithmetic is exact).  Coroutine bodies are scripts (data): per
    resumption a list of in-body actions (start / kill / state of any
-   generator, each logged with its outcome) and then Yield or Return.  The
+   generator, each logged with its outcome) and then Yield, Return or Raise.  The
    harness instantiates the same scripts as real Python generators.
 
    Models only: no proofs in this file. *)
@@ -16,13 +16,16 @@ Open Scope Z_scope.
 Definition gid := Z.       (* >= 0: a generator object; < 0: some non-generator *)
 
 Inductive yv := YNone | YNum (z : Z).
-Inductive result := RYield (y : yv) | RReturn (v : option Z).
+Inductive result :=
+| RYield (y : yv) | RReturn (v : option Z)
+| RRaise (k : Z).          (* an exception of class k leaves the body (SwitchWorld, Quit, ...) *)
 Inductive action := AStart (g : gid) | AKill (g : gid) | AState (g : gid).
 Definition stp := (list action * result)%type.
 Definition scripts := list (gid * list stp).
 
 Inductive outcome :=
-| OOk | OState (c : Z) | OValueError | OTypeError | OKeyError | OOther.
+| OOk | OState (c : Z) | OValueError | OTypeError | OKeyError | OOther
+| ORaised (k : Z).         (* process: the exception of class k raised by a coroutine body *)
 
 (* body of g resumed at script position k, outcomes of its in-body actions *)
 Definition entry := (gid * Z * list outcome)%type.
@@ -62,6 +65,7 @@ Definition outcome_eqb (a b : outcome) : bool :=
   | OOk, OOk | OValueError, OValueError | OTypeError, OTypeError
   | OKeyError, OKeyError | OOther, OOther => true
   | OState x, OState y => x =? y
+  | ORaised x, ORaised y => x =? y
   | _, _ => false
   end.
 
@@ -286,6 +290,32 @@ Definition park (s : st) (g : gid) (z : Z) : st :=
        (waitq s ++ [mkW rid (z + timer s) (Some g)]) (killq s) (proms s) (pv s)
        (timer s) (rid + 1) (pcs s) (gdone s).
 
+(* while self._active_queue[0] is not None: self._active_queue.rotate(-1) *)
+Fixpoint before_sentinel (a : list (option gid)) : list (option gid) :=
+  match a with Some x :: r => Some x :: before_sentinel r | _ => [] end.
+Fixpoint from_sentinel (a : list (option gid)) : list (option gid) :=
+  match a with Some x :: r => from_sentinel r | l => l end.
+Definition rot_to_sentinel (a : list (option gid)) : list (option gid) :=
+  from_sentinel a ++ before_sentinel a.
+
+(* next() raised something else than StopIteration:
+   gen = popleft(); del _generators[gen]; _kill_queue.discard(gen); del _promises[gen];
+   rotate until the sentinel is at the head; re-raise.
+   The boolean: one of the two del raised KeyError instead. *)
+Definition abort (s : st) (g : gid) : st * bool :=
+  let act := tl (active s) in
+  match alookup g (gens s) with
+  | None => (set_active s act, true)
+  | Some _ =>
+      let gn := adel g (gens s) in
+      let kq := remz g (killq s) in
+      if memz g (proms s)
+      then (mkSt gn (rot_to_sentinel act) (waitq s) kq (remz g (proms s)) (pv s)
+                 (timer s) (nrid s) (pcs s) (gdone s), false)
+      else (mkSt gn act (waitq s) kq (proms s) (pv s)
+                 (timer s) (nrid s) (pcs s) (gdone s), true)
+  end.
+
 Definition set_pc (s : st) (g : gid) (k : Z) : st :=
   mkSt (gens s) (active s) (waitq s) (killq s) (proms s) (pv s) (timer s) (nrid s)
        (aset g k (pcs s)) (gdone s).
@@ -298,21 +328,21 @@ Definition set_done (s : st) (g : gid) : st :=
    sentinel, so [length (active s)] iterations always suffice; running out
    of fuel rejects. *)
 Fixpoint loop (sc : scripts) (fuel : nat) (s : st) (log : list entry)
-  : option (st * list entry * bool) :=
+  : option (st * list entry * outcome) :=
   match fuel with
   | O => None
   | S fuel =>
     match active s with
     | [] => None                                   (* IndexError: never *)
-    | None :: _ => Some (s, log, false)
+    | None :: _ => Some (s, log, OOk)
     | Some g :: _ =>
       if memz g (killq s) then
         let '(s1, e) := drop_active s g in
-        if e then Some (s1, log, true) else loop sc fuel s1 log
+        if e then Some (s1, log, OKeyError) else loop sc fuel s1 log
       else if memz g (gdone s) then
         (* next() of an exhausted generator: StopIteration(None), no code runs *)
         let '(s1, e) := finish s g None in
-        if e then Some (s1, log, true) else loop sc fuel s1 log
+        if e then Some (s1, log, OKeyError) else loop sc fuel s1 log
       else
         match log with
         | [] => None
@@ -327,7 +357,11 @@ Fixpoint loop (sc : scripts) (fuel : nat) (s : st) (log : list entry)
               match res with
               | RReturn v =>
                   let '(s2, e) := finish (set_done s1 g) g v in
-                  if e then Some (s2, log', true) else loop sc fuel s2 log'
+                  if e then Some (s2, log', OKeyError) else loop sc fuel s2 log'
+              | RRaise x =>
+                  (* the frame is abandoned, the exception propagates *)
+                  let '(s2, e) := abort (set_done s1 g) g in
+                  Some (s2, log', if e then OKeyError else ORaised x)
               | RYield y =>
                   match is_pos y with
                   | Some z => loop sc fuel (park s1 g z) log'
@@ -341,10 +375,10 @@ Fixpoint loop (sc : scripts) (fuel : nat) (s : st) (log : list entry)
   end.
 
 Definition process (sc : scripts) (s : st) (dt : Z) (log : list entry)
-  : option (st * list entry * bool) :=
+  : option (st * list entry * outcome) :=
   match wake s dt log with
   | None => None
-  | Some (s1, true) => Some (s1, log, true)
+  | Some (s1, true) => Some (s1, log, OKeyError)
   | Some (s1, false) =>
       let s2 := set_active s1 (rotate1 (active s1)) in
       loop sc (S (length (active s2))) s2 log
@@ -363,8 +397,7 @@ Definition step (sc : scripts) (s : st) (o : op) (ob : obs) : option st :=
       then Some s else None
   | Process dt, ObsP log exc =>
       match process sc s dt log with
-      | Some (s', [], e) =>
-          if outcome_eqb exc (if e then OKeyError else OOk) then Some s' else None
+      | Some (s', [], e) => if outcome_eqb exc e then Some s' else None
       | _ => None
       end
   | _, _ => None
